@@ -33,6 +33,25 @@
 #include "aes_xts.h"
 #include "aes_xts_internal.h"
 
+#ifdef FIPS_MODE
+/*
+ * Key comparison that stays in general purpose registers. memcmp() from the C library is free to
+ * use vector registers and leaves key bytes behind in them (glibc's AVX512VL version in ymm16 and
+ * up, which no XTS kernel wipes), against what SAFE_DATA promises.
+ */
+static int
+xts_keys_equal(const uint8_t *a, const uint8_t *b, const size_t len)
+{
+        const volatile uint8_t *pa = a, *pb = b;
+        uint8_t diff = 0;
+
+        for (size_t i = 0; i < len; i++)
+                diff |= pa[i] ^ pb[i];
+
+        return diff == 0;
+}
+#endif
+
 int
 isal_aes_xts_enc_128(const uint8_t *k2, const uint8_t *k1, const uint8_t *initial_tweak,
                      const uint64_t len_bytes, const void *in, void *out)
@@ -56,7 +75,7 @@ isal_aes_xts_enc_128(const uint8_t *k2, const uint8_t *k1, const uint8_t *initia
 
 #ifdef FIPS_MODE
         /* Compare keys, before expansion (16 bytes) */
-        if (memcmp(k1, k2, 16) == 0)
+        if (xts_keys_equal(k1, k2, 16))
                 return ISAL_CRYPTO_ERR_XTS_SAME_KEYS;
 
         if (isal_self_tests())
@@ -93,7 +112,7 @@ isal_aes_xts_enc_128_expanded_key(const uint8_t *k2, const uint8_t *k1,
 
 #ifdef FIPS_MODE
         /* Compare entire expanded keys (16*11 bytes) */
-        if (memcmp(k1, k2, 16 * 11) == 0)
+        if (xts_keys_equal(k1, k2, 16 * 11))
                 return ISAL_CRYPTO_ERR_XTS_SAME_KEYS;
 
         if (isal_self_tests())
@@ -129,7 +148,7 @@ isal_aes_xts_dec_128(const uint8_t *k2, const uint8_t *k1, const uint8_t *initia
 
 #ifdef FIPS_MODE
         /* Compare keys, before expansion (16 bytes) */
-        if (memcmp(k1, k2, 16) == 0)
+        if (xts_keys_equal(k1, k2, 16))
                 return ISAL_CRYPTO_ERR_XTS_SAME_KEYS;
 
         if (isal_self_tests())
@@ -166,7 +185,7 @@ isal_aes_xts_dec_128_expanded_key(const uint8_t *k2, const uint8_t *k1,
 
 #ifdef FIPS_MODE
         /* Compare entire expanded keys (16*11 bytes) */
-        if (memcmp(k1, k2, 16 * 11) == 0)
+        if (xts_keys_equal(k1, k2, 16 * 11))
                 return ISAL_CRYPTO_ERR_XTS_SAME_KEYS;
 
         /*
@@ -174,7 +193,7 @@ isal_aes_xts_dec_128_expanded_key(const uint8_t *k2, const uint8_t *k1,
          * equal buffers: compare the two round keys both schedules hold untransformed
          * (the first of one is the last of the other)
          */
-        if (memcmp(k1, k2 + 16 * 10, 16) == 0 && memcmp(k1 + 16 * 10, k2, 16) == 0)
+        if (xts_keys_equal(k1, k2 + 16 * 10, 16) && xts_keys_equal(k1 + 16 * 10, k2, 16))
                 return ISAL_CRYPTO_ERR_XTS_SAME_KEYS;
 
         if (isal_self_tests())
@@ -210,7 +229,7 @@ isal_aes_xts_enc_256(const uint8_t *k2, const uint8_t *k1, const uint8_t *initia
 
 #ifdef FIPS_MODE
         /* Compare keys, before expansion (16*2 bytes) */
-        if (memcmp(k1, k2, 16 * 2) == 0)
+        if (xts_keys_equal(k1, k2, 16 * 2))
                 return ISAL_CRYPTO_ERR_XTS_SAME_KEYS;
 
         if (isal_self_tests())
@@ -247,7 +266,7 @@ isal_aes_xts_enc_256_expanded_key(const uint8_t *k2, const uint8_t *k1,
 
 #ifdef FIPS_MODE
         /* Compare entire expanded keys (16*15 bytes) */
-        if (memcmp(k1, k2, 16 * 15) == 0)
+        if (xts_keys_equal(k1, k2, 16 * 15))
                 return ISAL_CRYPTO_ERR_XTS_SAME_KEYS;
 
         if (isal_self_tests())
@@ -283,7 +302,7 @@ isal_aes_xts_dec_256(const uint8_t *k2, const uint8_t *k1, const uint8_t *initia
 
 #ifdef FIPS_MODE
         /* Compare keys, before expansion (16*2 bytes) */
-        if (memcmp(k1, k2, 16 * 2) == 0)
+        if (xts_keys_equal(k1, k2, 16 * 2))
                 return ISAL_CRYPTO_ERR_XTS_SAME_KEYS;
 
         if (isal_self_tests())
@@ -320,7 +339,7 @@ isal_aes_xts_dec_256_expanded_key(const uint8_t *k2, const uint8_t *k1,
 
 #ifdef FIPS_MODE
         /* Compare entire expanded keys (16*15 bytes) */
-        if (memcmp(k1, k2, 16 * 15) == 0)
+        if (xts_keys_equal(k1, k2, 16 * 15))
                 return ISAL_CRYPTO_ERR_XTS_SAME_KEYS;
 
         /*
@@ -328,7 +347,7 @@ isal_aes_xts_dec_256_expanded_key(const uint8_t *k2, const uint8_t *k1,
          * equal buffers: compare the two round keys both schedules hold untransformed
          * (the first of one is the last of the other)
          */
-        if (memcmp(k1, k2 + 16 * 14, 16) == 0 && memcmp(k1 + 16 * 14, k2, 16) == 0)
+        if (xts_keys_equal(k1, k2 + 16 * 14, 16) && xts_keys_equal(k1 + 16 * 14, k2, 16))
                 return ISAL_CRYPTO_ERR_XTS_SAME_KEYS;
 
         if (isal_self_tests())
